@@ -291,6 +291,43 @@ func Remove(name string) error {
 	return nil
 }
 
+// Rename moves a file (or an empty directory entry) to a new name, replacing an existing
+// file of that name. It is one atomic I/O event under the crash model: after a crash either
+// the old or the new name holds the inode, never both or none.
+func Rename(oldpath, newpath string) error {
+	op, np := clean(oldpath), clean(newpath)
+	act, _ := simrt.IO("rename", np, 0, 0)
+	if act.Err != nil {
+		return &os.LinkError{Op: "rename", Old: oldpath, New: newpath, Err: act.Err}
+	}
+	if act.CrashBefore {
+		simrt.Die()
+	}
+	disk.mu.Lock()
+	in := disk.files[op]
+	if in == nil {
+		disk.mu.Unlock()
+		return &os.LinkError{Op: "rename", Old: oldpath, New: newpath, Err: ErrNotExist}
+	}
+	if !parentExists(np) {
+		disk.mu.Unlock()
+		return &os.LinkError{Op: "rename", Old: oldpath, New: newpath, Err: ErrNotExist}
+	}
+	if dst := disk.files[np]; dst != nil && dst.dir {
+		disk.mu.Unlock()
+		return &os.LinkError{Op: "rename", Old: oldpath, New: newpath, Err: errors.New("file exists")}
+	}
+	if op != np {
+		disk.files[np] = in
+		delete(disk.files, op)
+	}
+	disk.mu.Unlock()
+	if act.CrashAfter {
+		simrt.Die()
+	}
+	return nil
+}
+
 func RemoveAll(path string) error {
 	simrt.RaceOff()
 	defer simrt.RaceOn()
